@@ -899,6 +899,57 @@ pub fn c19(em: &mut Emit, thorough: bool, seed: u64) {
                     &pred(ok, || format!("{} (path {:?})", why, p)),
                     &class,
                 );
+                // the documented use of a node: node -> file entity -> `serve`
+                if p.len() <= 8 {
+                    if let Ok(node) = r {
+                        let is_file = node.metadata().is_file();
+                        let want_len = node.metadata().len();
+                        let mut hh = HeaderMap::new();
+                        node.add_encoding_headers(&mut hh);
+                        let full = format!("{}/{}{}", t.base.display(), p, if gz { ".gz" } else { "" });
+                        let verdict: Result<(), String> = match node.into_file_entity::<Bytes, BoxError>(hh.clone()) {
+                            Err(_) if is_file => Err("a regular file was refused as an entity".into()),
+                            Err(_) => Ok(()),
+                            Ok(_) if !is_file => Err("something that is not a regular file became an entity".into()),
+                            Ok(ent) => {
+                                use http_serve::Entity as _;
+                                if ent.len() != want_len {
+                                    Err(format!("entity length {} but the node's metadata says {}", ent.len(), want_len))
+                                } else {
+                                    let want = std::fs::read(&full).unwrap_or_default();
+                                    let hh2 = hh.clone();
+                                    rt.block_on(async move {
+                                        tokio::spawn(async move {
+                                            let req = http::Request::get("/").body(()).unwrap();
+                                            let resp = http_serve::serve(ent, &req);
+                                            if resp.status() != 200 {
+                                                return Err(format!("status {}", resp.status()));
+                                            }
+                                            for (k, v) in hh2.iter() {
+                                                if !resp.headers().get_all(k).iter().any(|x| x == v) {
+                                                    return Err(format!("header {} lost", k));
+                                                }
+                                            }
+                                            let body: Vec<u8> = drive_to_end(resp.into_body(), 64)
+                                                .into_iter()
+                                                .filter_map(|r| if let Out::Data(d) = r.out { Some(d) } else { None })
+                                                .flatten()
+                                                .collect();
+                                            if body == want { Ok(()) } else { Err("served bytes are not the file's".into()) }
+                                        })
+                                        .await
+                                        .unwrap()
+                                    })
+                                }
+                            }
+                        };
+                        em.pred_only(
+                            &format!("Node::into_file_entity + serve, path {:?} auto_gzip={} ae={:?}", p, auto, ae.map(|a| String::from_utf8_lossy(a).to_string())),
+                            &match verdict { Ok(()) => "ok".to_string(), Err(e) => format!("FAIL:{}", e) },
+                            "into-entity",
+                        );
+                    }
+                }
             }
         }
     }
